@@ -20,6 +20,7 @@ package state
 //verif:obligation fn=VerifC15Truncate args=11;12 loops=5000 validate=10
 //verif:obligation fn=VerifC15Schedule args=1;2;3 mode=int loops=5000 validate=12 timeout=120000
 //verif:obligation fn=VerifC15Tally args=1;2 loops=5000 validate=12
+//verif:obligation fn=VerifC15Epochs args=1;2 loops=5000 validate=12
 //verif:obligation fn=VerifC15Tally args=3 loops=5000 tier=thorough secs=3000 paths=2000000
 
 import (
@@ -288,4 +289,51 @@ func VerifC15Tally(nTx int) {
 	}
 	verifAssert(len(c.Votes) <= len(verifC15Keys), "no-foreign-keys")
 	verifReach("VerifC15Tally:end")
+}
+
+// ---------------------------------------------------------------------------
+// epochs: the tally of a running epoch is fixed when the next checkpoint is
+// created; votes and vetoes of the next epoch's blocks must not reach it
+// (the validator set of an epoch is a function of the branch up to its
+// checkpoint, not of later blocks).
+
+func VerifC15Epochs(nTx int) {
+	parent := &Checkpoint{Height: 100, Status: Unjustified, Votes: map[string]uint64{}, Rewards: map[string]uint64{}}
+	prior := make([]uint64, len(verifC15Keys))
+	for i, k := range verifC15Keys {
+		v := verifU64("prior")
+		verifAssume(v < 1<<62)
+		if v != 0 {
+			parent.Votes[hex.EncodeToString(k)] = v
+		}
+		prior[i] = v
+	}
+	child := NewCheckpoint(parent)
+	for i, k := range verifC15Keys {
+		verifAssert(child.Votes[hex.EncodeToString(k)] == prior[i], "child-starts-from-the-parent-tally")
+	}
+	block := &types.Block{}
+	prog := []byte{0x51}
+	for t := 0; t < nTx; t++ {
+		ins := []*types.TxInput{types.NewSpendInput(nil, bc.Hash{V0: uint64(t*10 + 9)}, *consensus.BTMAssetID, 5, 0, prog, nil)}
+		outs := []*types.TxOutput{types.NewOriginalTxOutput(*consensus.BTMAssetID, 1, prog, nil)}
+		if who := verifChoice("vetoKey", len(verifC15Keys)+1); who < len(verifC15Keys) {
+			amt := verifU64("vetoAmount")
+			verifAssume(amt < 1<<62)
+			ins = append(ins, types.NewVetoInput(nil, bc.Hash{V0: uint64(t * 10)}, *consensus.BTMAssetID, amt, 0, prog, verifC15Keys[who], nil))
+		}
+		if who := verifChoice("voteKey", len(verifC15Keys)+1); who < len(verifC15Keys) {
+			amt := verifU64("voteAmount")
+			verifAssume(amt < 1<<62)
+			outs = append(outs, types.NewVoteOutput(*consensus.BTMAssetID, amt, prog, verifC15Keys[who], nil))
+		}
+		block.Transactions = append(block.Transactions, &types.Tx{TxData: types.TxData{Version: 1, Inputs: ins, Outputs: outs}})
+	}
+	child.applyVotes(block)
+	for i, k := range verifC15Keys {
+		got := parent.Votes[hex.EncodeToString(k)]
+		verifObserveU64("parentTally", got)
+		verifAssert(got == prior[i], "next-epoch-votes-do-not-change-the-running-epoch")
+	}
+	verifReach("VerifC15Epochs:end")
 }
